@@ -80,7 +80,7 @@ func Specs() map[string]*PropSpec {
 		Rules:       []RuleRef{registeredRule("zadd", "zrem", "zrange", "zrank"), rR9, rR2, rR1, rR7, rR15, rR27, rR20b, rR20t, rR29, rR20v, rR20z, rR21, rR22, rR22d, rR22w, rR32, rR9w, rR14pair, rR20h, rR11e}})
 	add(&PropSpec{ID: "C13", Files: []string{"memdb/"},
 		Explanation: "Static deadlock-freedom argument for the stripe locks over all schedules and key sets: pairing on all exits (R14p); the lock-class graph is acyclic, no stripe is acquired (directly or through a callee such as CheckTTL) while one is held, nothing blocks under a stripe (R14o); the *Multi helpers acquire sorted, de-duplicated stripe positions (R15m). Atomicity, structural part: every access of the multi-key commands lies inside one LockMulti hold covering its key (R15, R15r) and aliasing keys are safe (R25); a multi-key command that replies with an error has changed none of its keys (R27). Observed atomicity of histories is not decided.",
-		Rules:       []RuleRef{rR14pair, rR14order, rR15m, rR15, rR15r, rR25, rR27, rR15a, rR6c, rR17, rR15l}})
+		Rules:       []RuleRef{rR14pair, rR14order, rR15m, rR15, rR15r, rR25, rR27, rR15a, rR6c, rR17, rR15l, rR6w}})
 	add(&PropSpec{ID: "C14", Files: []string{"server/", "raftexample/", "resp/", "memdb/pubsub.go", "memdb/list.go"},
 		Explanation: "The replicated log carries commands unaltered, structurally: [][]byte carrier filled from ToCommand and handed to the same dispatcher unchanged (R10); proposed bytes are a fresh encoding (R10b); the cluster handler executes locally only in the rconf arm so that reads and SELECT see one state (R23); blocking/conn executors are filtered (R18). Reply equality with a standalone server for all inputs is not decided. The filter chain passes the argument vector through unchanged or rejects it (R10f); proposal ids that route replies are globally unique (R23u). A proposal is sent once per command (R23p); the proposal codec is encoding/json on both sides (R16x).",
 		Rules:       []RuleRef{rR10, rR10b, rR23, rR18, rR10f, rR23u, rR23p, rR16x, rR16e, rR16f, rR10t, rR16r, rR18c, rR20cs, rR16y, rR23a, rR10j, rR23r, rR10u, rR16o, rR23c, rR16l, rR16b}})
